@@ -103,7 +103,7 @@ fn gen_inputs(r: &mut StdRng, files: &Files, root: &Path) -> Vec<String> {
         let s = &srcs[r.gen_range(0..srcs.len())];
         let o = model::output_of(s).unwrap();
         let d = DIRS[r.gen_range(0..DIRS.len())];
-        let pick = r.gen_range(0..14);
+        let pick = r.gen_range(0..15);
         let inp = match pick {
             0 => ".".to_string(),
             1 => if d.is_empty() { ".".into() } else { d.to_string() },
@@ -121,6 +121,11 @@ fn gen_inputs(r: &mut StdRng, files: &Files, root: &Path) -> Vec<String> {
             }
             10 => "nosuch.txt".to_string(),
             11 => "a/nosuch.txt.txtpp".to_string(),
+            13 => {
+                // the same file through a spelling with `..`
+                let sd = model::dir_of(s);
+                if sd.is_empty() { format!("z/../{s}") } else { format!("{sd}/../{}/{}", sd.rsplit('/').next().unwrap(), s.rsplit('/').next().unwrap()) }
+            }
             12 => format!("{}{}", if d.is_empty() { String::new() } else { format!("{d}/") }, LOOKALIKES[r.gen_range(0..4)]),
             _ => o.clone(),
         };
@@ -342,7 +347,7 @@ fn run(ctx: &mut Ctx) {
     let logs = ctx.scratch.root.join("logs");
     let _ = std::fs::create_dir_all(&logs);
     let mlog = logs.join("c11.log");
-    let n = ctx.tier.pick(120, 4000);
+    let n = ctx.tier.pick(600, 6000);
     for i in 0..n {
         if !ctx.time_left() || ctx.violations.len() > 25 {
             break;
